@@ -42,6 +42,7 @@ type Prog struct {
 	byObj  map[*types.Func]*FuncInfo
 	byLit  map[*ast.FuncLit]*FuncInfo
 	repo   string
+	seed   int
 	assume []string // assumptions gathered for evidence
 }
 
@@ -323,6 +324,8 @@ type VC struct {
 	bvN         int
 	havocKnown  map[string]map[string]bool
 	abstracted  []string // callees without contract (abstracted by havoc)
+	boundAssume []string // size bounds assumed by the bounded counterexample search
+	unroll      int      // >0: counterexample search mode (loops unrolled, never used for proofs)
 }
 
 func (vc *VC) declare(name, sort string) {
